@@ -355,7 +355,12 @@ Definition Rs_adam (s : adam_slots fun_ops) (ss : adam_state) : Prop :=
   let '(m, v, t) := ss in s = (@Own fun_ops m, @Own fun_ops v, t).
 
 (* equal real expressions: same shape down to sub-terms that [ring] identifies (division and sqrt are opaque to ring) *)
-Ltac rsolve := solve [ reflexivity | ring | (f_equal; rsolve) ].
+Ltac rsolve_n n :=
+  lazymatch n with
+  | O => fail
+  | S ?m => solve [ reflexivity | ring | (progress f_equal; rsolve_n m) ]
+  end.
+Ltac rsolve := rsolve_n 12%nat.
 Ltac vec_eq' := let k := fresh "k" in extensionality k; cbn; q2r; rewrite ?Nat.add_1_r; rsolve.
 
 Lemma adam_sim h : forall t r gcur hp s ss d, Rs_adam s ss ->
